@@ -195,6 +195,7 @@ package policy
 //@   modifies nothing
 
 //@ func (*BaseExecutor).OnSuccess
+//@   beforecall e.onSuccess: assert [C14.user_callback_gets_copy] userCopy(callarg_0.ExecutionAttempt)
 //@   requires e != nil && exec != nil
 //@   let has := e.BaseFailurePolicy != nil && e.onSuccess != nil
 //@   ensures [C16.base.onsuccess] has ==> ncalls(e.onSuccess) == 1 && arg(e.onSuccess, 1, 0) == ret(exec.CopyWithResult, 1) && ncalls(exec.CopyWithResult) == 1 && arg(exec.CopyWithResult, 1, 0) == result
@@ -203,6 +204,7 @@ package policy
 //@   modifies calls(e.onSuccess), calls(exec.CopyWithResult)
 
 //@ func (*BaseExecutor).OnFailure
+//@   beforecall e.onFailure: assert [C14.user_callback_gets_copy] userCopy(callarg_0.ExecutionAttempt)
 //@   requires e != nil && exec != nil
 //@   let has := e.BaseFailurePolicy != nil && e.onFailure != nil
 //@   ensures [C16.base.onfailure] has ==> ncalls(e.onFailure) == 1 && arg(e.onFailure, 1, 0) == ret(exec.CopyWithResult, 1) && ncalls(exec.CopyWithResult) == 1 && arg(exec.CopyWithResult, 1, 0) == result
